@@ -40,6 +40,9 @@ func (l C18Line) full() []byte {
 type C18Case struct {
 	Lines   []C18Line `json:"lines"`
 	ViaFrom bool      `json:"via_from"` // go through Converter.From with AddListFunction
+	// NoFinalNL (direct calls only): the payload's last line is not
+	// newline-terminated (lines joined by newlines rather than ended by them)
+	NoFinalNL bool `json:"no_final_nl,omitempty"`
 }
 
 // echoStub replaces echo so that every call reports its argument count and
@@ -102,6 +105,9 @@ func payload(c C18Case) string {
 		}
 		sb.Write(l.full())
 		sb.WriteByte('\n')
+	}
+	if c.NoFinalNL && !c.ViaFrom {
+		return strings.TrimSuffix(sb.String(), "\n")
 	}
 	return sb.String()
 }
@@ -331,6 +337,7 @@ func genC18() *rapid.Generator[C18Case] {
 			c.Lines = append(c.Lines, l)
 		}
 		c.ViaFrom = rapid.IntRange(0, 7).Draw(t, "viafrom") == 0
+		c.NoFinalNL = !c.ViaFrom && rapid.IntRange(0, 3).Draw(t, "nofinalnl") == 0
 		return c
 	})
 }
@@ -398,6 +405,12 @@ func c18Classes(c C18Case) []string {
 	}
 	if c.ViaFrom {
 		cl = append(cl, "via-Converter.From")
+	}
+	if c.NoFinalNL && !c.ViaFrom && len(c.Lines) > 0 {
+		cl = append(cl, "last-line-unterminated")
+		if c.Lines[len(c.Lines)-1].Tagged {
+			cl = append(cl, "last-line-unterminated-and-tagged")
+		}
 	}
 	sort.Strings(cl)
 	out := cl[:0]
